@@ -35,7 +35,7 @@ ASSUMPTIONS = E1_ASSUMPTIONS + [
     "bracket comment or doccomment (which leaves it unterminated)",
     "an unterminated bracket *argument* is not one of the families the statement names: such cases are discarded",
     "the fault-free configuration (same worlds, no corruption) must exit 0 and write the page"]
-PROBES = ["read_error_on_input", "family_unterminated-string", "family_unterminated-bracket-comment", "family_invalid-escape",
+PROBES = ["settings_profile_used", "module_without_any_doccomment", "read_error_on_input", "family_unterminated-string", "family_unterminated-bracket-comment", "family_invalid-escape",
           "family_unbalanced-paren", "family_stray-text", "mode_o", "mode_stdout", "in_tree", "stale_page_present",
           "pair", "fault_between_commands", "fault_inside_arguments", "rest_of_file_swallowed_candidate"]
 
@@ -52,6 +52,7 @@ def swarm(rng, tier):
         "max_cmds": rng.choice([1, 2, 3]) if tier == "quick" else rng.choice([1, 2, 2, 3]),
         "pairs": rng.choice([0, 4, 8]),
         "mode": rng.choice(["o", "o", "stdout", "mixed"]),
+        "settings_profile": rng.choice([None, None, "undoc_off", "mixed"]),
     }
 
 
@@ -63,6 +64,11 @@ def strategy(cfg):
         if not desc["cmds"]:
             desc["cmds"] = [{"k": draw(st.integers(0, len(cmakegen.KINDS) - 2)), "doc": 1, "v": draw(st.integers(0, 63)),
                              "n": 2}]
+        profile = cfg.get("settings_profile")
+        if profile and draw(st.booleans()):
+            # a module without any doccomment: only the include_undocumented_* settings decide what is rendered
+            desc = {"mod": None, "cmds": [dict(c, doc=0) for c in desc["cmds"] if cmakegen.KINDS[c["k"] % len(cmakegen.KINDS)] != "generic_doc"]
+                    or [{"k": 0, "doc": 0, "v": 0, "n": 1}]}
         m = cmakegen.render(desc, "f0")
         mode = cfg["mode"] if cfg["mode"] != "mixed" else draw(st.sampled_from(["o", "stdout"]))
         in_tree = draw(st.booleans())
@@ -71,7 +77,9 @@ def strategy(cfg):
             siblings = {"aaa.cmake": cmakegen.render({"mod": None, "cmds": [{"k": 0, "doc": 1, "v": 0, "n": 1}]}, "s0").text,
                         "zzz.cmake": cmakegen.render({"mod": None, "cmds": [{"k": 2, "doc": 1, "v": 0, "n": 0}]}, "s1").text}
         return {"text": m.text, "tokens": [[k, t] for k, t in m.tokens],
-                "setting": {"mode": mode, "in_tree": in_tree, "stale": mode == "o" and draw(st.booleans())},
+                "setting": {"mode": mode, "in_tree": in_tree, "stale": mode == "o" and draw(st.booleans()),
+                            "undoc": (None if not profile else
+                                      ([False] * 10 if profile == "undoc_off" else [draw(st.booleans()) for _ in range(10)]))},
                 "siblings": siblings,
                 "plan": {"kinds": cfg["kinds"], "max_faults": cfg["max_faults"], "phase": draw(st.integers(0, 6)),
                          "pairs": cfg["pairs"], "pair_seed": draw(st.integers(0, 10 ** 6)),
@@ -200,6 +208,16 @@ def evaluate(spec, ctx):
         page = os.path.join(base, "w/out", "bad.rst")
         target = "proj" if setting["in_tree"] else "proj/" + name
         argv = (["-o", "out"] if mode == "o" else []) + [target]
+        if setting.get("undoc"):
+            import yaml
+            keys = ["function", "macro", "cpp_class", "cpp_attr", "cpp_constructor", "cpp_member", "ct_add_test",
+                    "add_test", "ct_add_section", "option"]
+            core.materialise(base, {"w/s.yaml": yaml.safe_dump({"input": {"include_undocumented_" + k: v
+                                                                          for k, v in zip(keys, setting["undoc"])}})})
+            argv = ["-s", "s.yaml"] + argv
+            ctx.probes["settings_profile_used"] += 1
+            if "#[[[" not in spec["text"]:
+                ctx.probes["module_without_any_doccomment"] += 1
         call = {"cwd": "w", "argv": argv, "listing_key": 0}
         ctx.probes["mode_" + mode] += 1
         if setting["in_tree"]:
